@@ -2,6 +2,149 @@
 
 package main
 
-import "bufio"
+import (
+	"fmt"
 
-func retryCase(line []byte, out *bufio.Writer) {}
+	"github.com/ErdemOzgen/blackdagger/internal/dag"
+	"github.com/ErdemOzgen/blackdagger/internal/dag/scheduler"
+	"github.com/ErdemOzgen/blackdagger/internal/logger"
+)
+
+// retry mode (C10): the graph is built by the REAL NewExecutionGraphForRetry from recorded node states.
+
+func statusOf(s string) scheduler.NodeStatus {
+	switch s {
+	case "running":
+		return scheduler.NodeStatusRunning
+	case "failed":
+		return scheduler.NodeStatusError
+	case "canceled":
+		return scheduler.NodeStatusCancel
+	case "finished":
+		return scheduler.NodeStatusSuccess
+	case "skipped":
+		return scheduler.NodeStatusSkipped
+	}
+	return scheduler.NodeStatusNone
+}
+
+func retryGraph(c schedCase, steps []dag.Step) (*scheduler.ExecutionGraph, error) {
+	var nodes []*scheduler.Node
+	for i, st := range steps {
+		ns := scheduler.NodeState{Status: statusOf(c.Init[i])}
+		if i < len(c.InitRC) {
+			ns.RetryCount = c.InitRC[i]
+		}
+		if i < len(c.InitDC) {
+			ns.DoneCount = c.InitDC[i]
+		}
+		nodes = append(nodes, scheduler.NewNode(st, ns))
+	}
+	return scheduler.NewExecutionGraphForRetry(logger.NewLogger(logger.NewLoggerArgs{Quiet: true}), nodes...)
+}
+
+// monitorRetry: the property C10 itself, read independently of the Lean model.
+//   T := steps recorded failed / canceled / running / not started, plus everything downstream of one
+//   - the retry terminates
+//   - a step outside T is never executed and keeps its recorded state
+//   - a step in T is re-executed as soon as its dependencies let it (never left with its stale label)
+//   - every start happens after all dependencies finished (dependency order)
+func monitorRetry(c schedCase, r *result, stopped bool) []string {
+	var v []string
+	add := func(f string, a ...any) { v = append(v, fmt.Sprintf(f, a...)) }
+	n := len(c.Nodes)
+	if r.Panic != "" {
+		add("C10:panic:%s", r.Panic)
+		return v
+	}
+	inT := make([]bool, n)
+	for i := 0; i < n; i++ {
+		switch c.Init[i] {
+		case "failed", "canceled", "running", "not started":
+			inT[i] = true
+		}
+	}
+	for ch := true; ch; {
+		ch = false
+		for i := 0; i < n; i++ {
+			if inT[i] {
+				continue
+			}
+			for _, d := range c.Nodes[i].Deps {
+				if inT[d] {
+					inT[i] = true
+					ch = true
+				}
+			}
+		}
+	}
+	if r.Hang || !r.Finished {
+		run := ""
+		for i := 0; i < n; i++ {
+			if c.Init[i] == "running" {
+				run = ":recorded-running-step"
+			}
+		}
+		add("C10:retry-does-not-terminate%s", run)
+		return v
+	}
+	if len(r.Snaps) == 0 {
+		return v
+	}
+	final := r.Snaps[len(r.Snaps)-1]
+	starts := make([]int, n)
+	open := map[int]bool{}
+	for _, e := range r.Events {
+		if e.Node >= 1000 || e.Node < 0 {
+			continue
+		}
+		switch e.Kind {
+		case "start":
+			starts[e.Node]++
+			open[e.Node] = true
+			for _, d := range c.Nodes[e.Node].Deps {
+				if open[d] {
+					add("C10:order:start-while-dependency-running:node=%d dep=%d", e.Node, d)
+				}
+				if d < len(e.St) && !licensed(e.St[d], c.Nodes[d]) {
+					add("C10:order:start-with-unlicensed-dependency:node=%d dep=%d depstatus=%s", e.Node, d, e.St[d])
+				}
+			}
+		case "end":
+			delete(open, e.Node)
+		}
+	}
+	for i := 0; i < n; i++ {
+		if !inT[i] {
+			if starts[i] != 0 {
+				add("C10:kept-step-executed:node=%d recorded=%s", i, c.Init[i])
+			}
+			if final.St[i] != c.Init[i] {
+				add("C10:kept-step-state-changed:node=%d recorded=%s now=%s", i, c.Init[i], final.St[i])
+			}
+			continue
+		}
+		if stopped {
+			continue
+		}
+		allLic, blocked := true, false
+		for _, d := range c.Nodes[i].Deps {
+			if !licensed(final.St[d], c.Nodes[d]) {
+				allLic = false
+			}
+			if final.St[d] == "failed" && !c.Nodes[d].ContFail || final.St[d] == "canceled" || final.St[d] == "skipped" && !c.Nodes[d].ContSkip {
+				blocked = true
+			}
+		}
+		if allLic && starts[i] == 0 && !(final.St[i] == "skipped" && c.Nodes[i].Pre == 2) && !c.Dry {
+			add("C10:unfinished-step-not-reexecuted:node=%d recorded=%s now=%s", i, c.Init[i], final.St[i])
+		}
+		if blocked && starts[i] != 0 {
+			add("C10:executed-downstream-of-blocker:node=%d", i)
+		}
+		if final.St[i] == "not started" || final.St[i] == "running" {
+			add("C10:step-left-unfinished:node=%d now=%s", i, final.St[i])
+		}
+	}
+	return v
+}
